@@ -801,13 +801,18 @@ func (g *generator) convertFragmentSpread(
 		return nil, nil
 	}
 
-	g.verifTypeMapEvent("peek", fragmentSpread.Name,
-		fragmentSpread.Definition.TypeCondition, fragmentSpread.Definition.SelectionSet)
-	typ, ok := g.typeMap[fragmentSpread.Name]
-	if !ok {
+	// The fragment's type is stored under the fragment's own name, which may
+	// coincide with a name we generated for something else; getType reports
+	// that as a conflict rather than handing us the other type.
+	typ, err := g.getType(
+		fragmentSpread.Name, fragmentSpread.Definition.TypeCondition,
+		fragmentSpread.Definition.SelectionSet, fragmentSpread.Position)
+	if err != nil {
+		return nil, err
+	}
+	if typ == nil {
 		// If we haven't yet, convert the fragment itself.  Note that fragments
 		// aren't allowed to have cycles, so this won't recurse forever.
-		var err error
 		typ, err = g.convertNamedFragment(fragmentSpread.Definition)
 		if err != nil {
 			return nil, err
@@ -884,9 +889,7 @@ func (g *generator) convertNamedFragment(fragment *ast.FragmentDefinition) (goTy
 			descriptionInfo: desc,
 			Generator:       g,
 		}
-		g.verifTypeMapEvent("write", fragment.Name, goType.GraphQLTypeName(), goType.SelectionSet())
-		g.typeMap[fragment.Name] = goType
-		return goType, nil
+		return g.addType(goType, fragment.Name, fragment.Position)
 	case ast.Interface, ast.Union:
 		implementationTypes := possibleObjectTypes(g.schema, typ)
 		goType := &goInterfaceType{
@@ -896,8 +899,9 @@ func (g *generator) convertNamedFragment(fragment *ast.FragmentDefinition) (goTy
 			Selection:       fragment.SelectionSet,
 			descriptionInfo: desc,
 		}
-		g.verifTypeMapEvent("write", fragment.Name, goType.GraphQLTypeName(), goType.SelectionSet())
-		g.typeMap[fragment.Name] = goType
+		if _, err := g.addType(goType, fragment.Name, fragment.Position); err != nil {
+			return nil, err
+		}
 
 		for i, implDef := range implementationTypes {
 			implFields, err := g.convertSelectionSet(
@@ -917,8 +921,9 @@ func (g *generator) convertNamedFragment(fragment *ast.FragmentDefinition) (goTy
 				Generator:       g,
 			}
 			goType.Implementations[i] = implTyp
-			g.verifTypeMapEvent("write", implTyp.GoName, implTyp.GraphQLTypeName(), implTyp.SelectionSet())
-			g.typeMap[implTyp.GoName] = implTyp
+			if _, err := g.addType(implTyp, implTyp.GoName, fragment.Position); err != nil {
+				return nil, err
+			}
 		}
 
 		return goType, nil
